@@ -518,7 +518,7 @@ func C10(c *core.Ctx) {
 	cases := hookCases(c)
 	st := b1.Run(c, b1.Options{Name: "hooks", PerFile: 40, Family: "hooks"}, cases, hookJudge)
 	// run-time side: executed generated functions, conjunct "hooks" of GenExecTrace
-	gxCommon(c, "GenExecTraceC10.cfg", "C10", func(r gxRun) bool {
+	gxCommon(c, "GenExecTraceC10.cfg", "C10", true, func(r gxRun) bool {
 		pre, _ := r.begin["pre"].(map[string]any)
 		post, _ := r.begin["post"].(map[string]any)
 		return pre["on"] == true || post["on"] == true
